@@ -16,6 +16,7 @@ pub const CONNECT_REASONS: &[u8] = &[
 pub fn check(tier: Tier) -> Check {
     let mut parts = vec![
         Part::new("C13/connect", json!({}), 0, 60),
+        Part::new("C13/connect", json!({"prelude": 11}), 0, 60),
         Part::new("C13/server-disconnect", json!({}), 0, 60),
         Part::new("C13/user-disconnect", json!({}), 0, 60),
     ];
